@@ -862,3 +862,52 @@ def combo(props=("C20",), e1="buffer", e2="buffer", w=1, blocking=True, src_bloc
         if twin:
             ctx.fail("TWIN:reached-end")
     return fn
+
+
+# ---------------------------------------------------------------------------------------------
+# engine self-test on the repository's own test inputs (tests/test_machine.py::test_pipeline_stats)
+
+TEST_MACHINE_ROWS = [(1, 1, 1, 4, 1, 0, 0), (0.25, 1, 1, 4, 1, 0, 0), (2, 3, 1, 4, 1, 0, 0), (1, 1, 5, 4, 1, 0, 0), (0.5, 1, 5, 4, 1, 0, 0), (2, 3, 5, 4, 1, 0, 0),
+                     (1, 1, 1, 4, 1, 0, 3), (0.5, 2, 1, 4, 1, 0, 3), (1, 2, 1, 4, 1, 1, 3), (1, 1, 5, 4, 1, 0, 3), (0.5, 2, 5, 4, 1, 0, 3), (1, 2, 5, 4, 1, 0, 3)]
+
+
+def selftest(T=40, twin=False):
+    """The pipeline of tests/test_machine.py with every number wrapped as a degenerate symbolic range [c, c]: the engine must follow the
+    single feasible path and, replayed with plain numbers (path validation is on for every path), produce the same statistics."""
+    def fn(ctx):
+        from factorysimpy.nodes.source import Source
+        from factorysimpy.nodes.machine import Machine
+        from factorysimpy.nodes.sink import Sink
+        from factorysimpy.edges.buffer import Buffer
+        F = Factory(ctx, ("C17", "C18"))
+        env = F.env
+        row = TEST_MACHINE_ROWS[ctx.choice(len(TEST_MACHINE_ROWS), "row")]
+        iat, pd, w, c1, c2, d1, d2 = row
+        iat = ctx.real("iat", iat, iat)
+        pd = ctx.real("pd", pd, pd)
+        d1 = ctx.real("d1", d1, d1)
+        d2 = ctx.real("d2", d2, d2)
+        Tend = ctx.real("T", T, T)
+        src = F.add_node(Source(env, "SRC", inter_arrival_time=iat))
+        b1 = F.add_edge(Buffer(env, "BUF1", capacity=c1, delay=d1))
+        m = F.add_node(Machine(env, "M1", processing_delay=pd, work_capacity=w))
+        b2 = F.add_edge(Buffer(env, "BUF2", capacity=c2, delay=d2))
+        snk = F.add_node(Sink(env, "SNK"))
+        b1.connect(src, m)
+        b2.connect(m, snk)
+        F.run(until=Tend, max_steps=20000)
+        b2.update_final_buffer_avg_content(Tend)
+        b1.update_final_buffer_avg_content(Tend)
+        m.update_final_state_time(Tend)
+        snk.update_final_state_time(Tend)
+        tot = m.stats["total_time_spent_in_states"]
+        a = tot["SETUP_STATE"] + tot["IDLE_STATE"] + tot["ATLEAST_ONE_PROCESSING_STATE"] + tot["ALL_ACTIVE_BLOCKED_STATE"]
+        if not ctx.eq(a, Tend):
+            ctx.fail("C17:state-group-A-does-not-add-up-to-T@Machine[selftest]", {"row": row})
+        ctx.hit("selftest-row")
+        ctx.log("stats", m.stats["num_item_processed"], m.stats["num_item_discarded"], snk.stats["num_item_received"], src.stats["num_item_generated"],
+                src.stats["num_item_discarded"], tuple(tot[k] for k in sorted(tot)), tuple(m.time_per_work_occupancy), snk.stats["total_cycle_time"])
+        ctx.hit("complete")
+        if twin:
+            ctx.fail("TWIN:reached-end")
+    return fn
